@@ -33,7 +33,10 @@ def tasks(tier):
     ]
     if tier == "thorough":
         cfgs += [dict(n_grains=4, phase="olivine", fabric=fb, regime=rg) for fb in ("olivine_B", "olivine_D") for rg in ("min_viscosity", "matrix_dislocation")]
-    return [("t_fblock", {"cfg": c, "steps": 2}) for c in cfgs] + [("t_update_all", {})]
+    t = [("t_fblock", {"cfg": c, "steps": 2}) for c in cfgs] + [("t_update_all", {})]
+    if tier == "thorough":
+        t += [("t_fblock", {"cfg": c, "steps": s}) for c in cfgs[:4] for s in (1, 3)]
+    return t
 
 
 def t_fblock(sess, cfg, steps):
